@@ -1839,9 +1839,6 @@ Qed.
 
 (** ** The theorems of C04 *)
 
-Lemma SInv_init h st qs uo : SInv h st (init_sub qs uo) \/ True.
-Proof. right. exact I. Qed.
-
 Lemma Inv_init h nw subs : Inv h (init nw subs).
 Proof.
   split; [apply GInv_init|]. cbn. intros i sb Hi _. rewrite nth_error_map in Hi.
@@ -1962,4 +1959,77 @@ Proof.
     split; [exact L1|]. split; [unfold leaf_cont; cbn; rewrite nth_error_app2 by lia; rewrite Nat.sub_diag; reflexivity|].
     split; [cbn; rewrite tlookup_app, Hl; cbn; rewrite path_eqb_refl; reflexivity|].
     intros sb _ Hrm. apply PF; auto.
+Qed.
+
+(** ** Without the one-write-in-flight hypothesis the statement is false *)
+
+Definition quiescentb (st : state) : bool :=
+  forallb (fun f : list item => match f with [] => true | _ => false end) (st_feeds st)
+  && forallb (fun s => s_end s || (match s_pc s with SDone => true | _ => false end
+                                   && match s_queue s with [] => true | _ => false end
+                                   && match s_infl s with None => true | _ => false end
+                                   && match s_out s with None => true | _ => false end)) (st_subs st).
+
+Lemma quiescentb_sound st : quiescentb st = true -> quiescent st.
+Proof.
+  unfold quiescentb, quiescent. intros H. apply andb_true_iff in H as [H1 H2]. split.
+  - intros f Hf. rewrite forallb_forall in H1. specialize (H1 _ Hf). destruct f; [reflexivity|discriminate].
+  - intros s Hs He. rewrite forallb_forall in H2. specialize (H2 _ Hs). rewrite He in H2. cbn in H2.
+    destruct (s_pc s); try discriminate. destruct (s_queue s); try discriminate.
+    destruct (s_infl s); try discriminate. destruct (s_out s); try discriminate. auto.
+Qed.
+
+Definition kf_path : path := ["t1"; "b"]%string.
+Definition kf_hyps : hyps := mkHyps false true false.
+Definition kf_schedule : list label :=
+  [LWrite 0 (WUpd kf_path 1 1); LFeed 0;
+   LReg 0; LRegDone 0; LWalkBegin 0; LVisit 0 kf_path; LWalkEnd 0; LSync 0;
+   LDeq 0; LRead 0; LSent 0; LDeq 0; LRead 0; LSent 0;
+   LWrite 0 (WUpd kf_path 5 5);              (* writer 0: tree write, announcement pending *)
+   LWrite 1 (WDel kf_path 10 []); LFeed 1;   (* writer 1: delete, announced *)
+   LFeed 0;                                  (* writer 0's announcement overtaken *)
+   LDeq 0; LRead 0; LSent 0; LDeq 0; LRead 0; LSent 0].
+Definition kf_subs : list (list path * bool) := [([["t1"]%string], false)].
+Definition kf_state : state :=
+  match run kf_hyps (init 2 kf_subs) kf_schedule with Some s => s | None => init 2 kf_subs end.
+
+Lemma stream_converges_refuted :
+  exists h nw subs st,
+    h_agree h = true /\ h_owt h = false /\
+    reachable h nw subs st /\ quiescent st /\
+    exists sb p, nth_error (st_subs st) 0 = Some sb /\ s_end sb = false /\ s_uo sb = false /\
+      sub_matches sb p = true /\
+      s_sent sb = [RUpd p 1 1 0; RSync; RDel p 10; RUpd p 5 5 0] /\
+      cache_at st p = None /\
+      option_map (proj h) (replay_path p None (s_sent sb)) <> option_map (proj h) (cache_at st p).
+Proof.
+  exists kf_hyps, 2%nat, kf_subs, kf_state. split; [reflexivity|]. split; [reflexivity|].
+  split; [exists kf_schedule; vm_compute; reflexivity|].
+  split; [apply quiescentb_sound; vm_compute; reflexivity|].
+  eexists. exists kf_path. split; [vm_compute; reflexivity|]. cbn.
+  repeat split; try (vm_compute; reflexivity). vm_compute. discriminate.
+Qed.
+
+(** Non-vacuity of [stream_invariant] / [stream_converges]: a reachable,
+    quiescent state of the strict system with a live subscriber whose walk is
+    done, a matching cached leaf, and a stream that delivered it. *)
+Definition ex_hyps : hyps := mkHyps true true true.
+Definition ex_schedule : list label :=
+  [LWrite 0 (WUpd kf_path 1 1); LFeed 0;
+   LReg 0; LRegDone 0;
+   LWrite 0 (WUpd kf_path 2 2);               (* lands between registration and walk *)
+   LWalkBegin 0; LVisit 0 kf_path; LWalkEnd 0; LSync 0; LFeed 0;
+   LDeq 0; LRead 0; LSent 0; LDeq 0; LRead 0; LSent 0].
+Definition ex_state : state :=
+  match run ex_hyps (init 1 kf_subs) ex_schedule with Some s => s | None => init 1 kf_subs end.
+
+Example stream_converges_example :
+  strict ex_hyps /\ reachable ex_hyps 1 kf_subs ex_state /\ quiescent ex_state /\
+  exists sb, nth_error (st_subs ex_state) 0 = Some sb /\ s_end sb = false /\ s_uo sb = false /\
+    walk_done sb = true /\ sub_matches sb kf_path = true /\
+    s_sent sb = [RUpd kf_path 2 2 1; RSync] /\ cache_at ex_state kf_path = Some (2, 2).
+Proof.
+  split; [split; reflexivity|]. split; [exists ex_schedule; vm_compute; reflexivity|].
+  split; [apply quiescentb_sound; vm_compute; reflexivity|].
+  eexists. split; [vm_compute; reflexivity|]. cbn. repeat split; vm_compute; reflexivity.
 Qed.
